@@ -3,7 +3,7 @@
 import json
 
 ENV = "export GOFLAGS=-mod=mod GOPROXY=off; "
-E1TEXT = 'Closed system of 4 real replicas (optionally one equivocating twin pair or a scripted Byzantine replica) wired from the production constructors; transitions are one real handler run to quiescence (delivery, duplicate delivery, loss, local timer expiry, crafted message). Explored: all interleavings at horizon 1 (2 thorough) and every execution within 1 (2) deviations of the lock-step FIFO schedule at horizon 6, for the three rulesets, with canonical-state merging and replay-determinism checks; monitors evaluate the property on every transition.'
+E1TEXT = 'Closed system of 4 real replicas (optionally one equivocating twin pair or a scripted Byzantine replica) wired from the production constructors; transitions are one real handler run to quiescence (delivery, duplicate delivery, loss, expiry of a one-shot local timer that the replica has armed, crafted message). Explored: all interleavings at horizon 1 (2 thorough) and every execution within 1 (2) deviations of the lock-step FIFO schedule at horizon 6, for the three rulesets, with canonical-state merging and replay-determinism checks; monitors evaluate the property on every transition.'
 E1NOTE = 'Synchronous vote verification, EdDSA, harness clock in block hashes; n=4 (n=7 only in thorough C05); fast-hotstuff never commits on this tree (known finding C05), so its commit-related verdicts are vacuous and the evidence says so.'
 CLAIMED = {
  # id: (engine, technique, level text, level note, design ref)
@@ -52,12 +52,12 @@ CLAIMED = {
  "C01": ("clustermc", "explicit-state search over the closed system of real replicas (deviation-bounded + full interleavings at small horizon), invariant monitors on every transition",
          "%s Oracle: per replica the committed sequence is a hash-linked chain from genesis with increasing views and no repeats, any two honest replicas' sequences are prefix-related, CommittedBlock equals the last commit." % E1TEXT, E1NOTE, "§2, §4 C01"),
  "C03": ("clustermc", "explicit-state search over the closed system of real replicas; monitor on every signing event of every honest replica (ground truth under the signing primitive)",
-         "%s Oracle: every vote is for a block proposed by (and received from) the leader of its view, whose QC is backed by a ground-truth quorum for its parent, with view above the certified block; vote views strictly increase and never fall at or below a view the replica signed a timeout for. Single-replica part: every input sequence to depth 6 (8) over 17 proposals / new-views / local timeouts from an environment holding all other keys, the replica's own proposals counted as votes." % E1TEXT, E1NOTE, "§2, §4 C03"),
+         "%s Oracle: every vote is for a block proposed by (and received from) the leader of its view, whose QC is backed by a ground-truth quorum for its parent, with view above the certified block; vote views strictly increase and never fall at or below a view the replica signed a timeout for. Single-replica part: every input sequence to depth 5 (7) over 21 proposals (with and without an aggregate QC) / new-views / local timeouts from an environment holding all other keys, the replica's own proposals counted as votes." % E1TEXT, E1NOTE, "§2, §4 C03"),
  "C05": ("clustermc", "exhaustive enumeration of prefix states (from the explicit-state search) x crash sets, each followed by the deterministic synchronous suffix on the real replicas",
-         "Prefix set: canonical states of the deviation-bounded exploration at horizon 3 (5 thorough) with loss, reordering, duplicates, timer expiries and twin equivocation, capped as reported, plus the 2-deviation (3 thorough) family restricted to early timers and lost timeout messages; crash sets: none and every single replica; oracle: every member of the live quorum commits a new block before view heal+3*ChainLength+2; plus the fault-free 12-view lock-step run (round-robin and fixed leader) with commits trailing by exactly the chain length; plus the isolation family: one replica cut off for k in {4,8,12} ({2..20} thorough) views led by every cyclic pattern of period 4 over {1,2,3} ({1..4}), then re-connected with leaders rotating over all replicas or a quorum containing it: every replica commits a new block within 3k+3*ChainLength+2 views.",
+         "Prefix set: canonical states of the deviation-bounded exploration at horizon 3 (5 thorough) with loss, reordering, duplicates, timer expiries and twin equivocation, capped as reported, plus the 2-deviation (3 thorough) family restricted to early timers and lost timeout messages; crash sets: none and every single replica; oracle: every member of the live quorum commits a new block before view heal+3*ChainLength+2; plus the fault-free 12-view lock-step run (round-robin and fixed leader) with commits trailing by exactly the chain length; plus the isolation family: one replica cut off for k in {4,8,12} ({2..20} thorough) views led by every cyclic pattern of period 4 over {1,2,3} ({1..4}), then re-connected with leaders rotating over all replicas or a quorum containing it: every replica commits a new block within 3k+3*ChainLength+2 views; plus the two-against-two partition family (no quorum on either side while every one-shot view timer fires 1..4 times, then healed).",
          "The bound is fixed in the harness; heal view = highest view in the prefix state + 2; fast-hotstuff fails as a known finding (behaviour asserted by TestAdvanceView). The isolation bound is linear in the lag k because a replica moves one view per certificate (C07); measured worst case on the unchanged tree 2.5 views per view of lag.", "§4 C05"),
  "C06": ("clustermc", "explicit-state search over the closed system of real replicas with real ClientIO / CommandCache; digest-explaining monitor on every transition",
-         "%s Oracle: one ExecuteEvent per committed block in chain order, the application count and digest are explained by executing the committed commands once in order, no (client, seq) twice, executed sequences of honest replicas prefix-related." % E1TEXT, E1NOTE + " In addition every chain of 3 (4) blocks over 12 batches of 3 commands (so that commands repeat across committed blocks) is committed through the real Committer into the real ClientIO with real ExecCommand callers waiting (one per command, one for a command that is only in an abandoned sibling): at most one outcome per caller, success only in the step the command is executed.", "§2, §4 C06"),
+         "%s Oracle: one ExecuteEvent per committed block in chain order, the application count and digest are explained by executing the committed commands once in order, no (client, seq) twice, executed sequences of honest replicas prefix-related." % E1TEXT, E1NOTE + " In addition every chain of 3 (4) blocks over 12 batches of 3 commands (so that commands repeat across committed blocks) is committed (also with one block withheld and not fetchable) through the real Committer into the real ClientIO with real ExecCommand callers waiting (one per command, one for a command that is only in an abandoned sibling): at most one outcome per caller, success only in the step the command is executed.", "§2, §4 C06"),
  "C07": ("clustermc", "explicit-state search over the closed system of real replicas; monotonicity and evidence monitors on every transition against the ground truth of real signatures",
          "%s Oracle: view, high QC view (and its block's view), high TC view and committed view never decrease; every view increment is signalled by a consecutive ViewChangeEvent and is justified by a ground-truth quorum of votes (block of view >= v) or timeouts (view >= v); every new high QC / high TC is backed by real signatures. Single-replica part: every input sequence to depth 4 (6) over 52 (simple rule) / 154 (aggregate rule) new-view messages, timeout messages and proposals carrying every combination of QC x TC x aggregate QC each in {absent, genuine (two views), sub-quorum, relabelled, genesis block with another view}, validity known by construction, with and without a signature cache (unmerged, one to two levels shallower)." % E1TEXT, E1NOTE, "§2, §4 C07"),
  "C15": ("schedmc", "exhaustive operation-sequence enumeration and preemption-bounded schedule enumeration of the real CommandCache under a controlled cooperative scheduler (sync/select/go rewritten mechanically), list+mark reference model",
